@@ -578,6 +578,135 @@ def stream_parse(ctx: Ctx) -> Stream:
 
 
 # ---------------------------------------------------------------------------------------------
+# stream errors-load: the real Modules (module/modules.py) over a scripted IModuleLoader
+
+
+class LoadRig:
+	"""Real `Modules` with a fake loader (public interface IModuleLoader) whose stages raise on request."""
+
+	def __init__(self, libraries: list[str]) -> None:
+		from rogw.tranp.module.loader import IModuleLoader
+		from rogw.tranp.module.modules import Modules
+		from rogw.tranp.module.types import ModulePath, ModulePaths
+		rig = self
+		self.imports: dict[str, list[str]] = {}
+		self.on_load: dict[str, Any] = {}        # path -> exception to raise from loader.load (None: fine)
+		self.on_preprocess: dict[str, Any] = {}
+		self.on_unload: dict[str, Any] = {}
+		self.calls: list[str] = []
+
+		class _ImportPath:
+			def __init__(self, tokens: str) -> None:
+				self.tokens = tokens
+
+		class _Import:
+			def __init__(self, tokens: str) -> None:
+				self.import_path = _ImportPath(tokens)
+
+		class _Entrypoint:
+			def __init__(self, path: str) -> None:
+				self.path = path
+
+			@property
+			def imports(self) -> list[Any]:
+				return [_Import(t) for t in rig.imports.get(self.path, [])]
+
+		class _Module:
+			def __init__(self, module_path: Any) -> None:
+				self.module_path = module_path
+				self.path = module_path.path
+				self.entrypoint = _Entrypoint(module_path.path)
+
+		class FakeLoader(IModuleLoader):
+			def load(self, module_path: Any) -> Any:
+				rig.calls.append(f'load:{module_path.path}')
+				exc = rig.on_load.get(module_path.path)
+				if exc is not None:
+					raise exc
+				return _Module(module_path)
+
+			def unload(self, module_path: Any) -> None:
+				rig.calls.append(f'unload:{module_path.path}')
+				exc = rig.on_unload.get(module_path.path)
+				if exc is not None:
+					raise exc
+
+			def preprocess(self, module: Any) -> None:
+				rig.calls.append(f'preprocess:{module.path}')
+				exc = rig.on_preprocess.get(module.path)
+				if exc is not None:
+					raise exc
+
+		self.modules = Modules(ModulePaths([ModulePath(p, language='py') for p in libraries]), ModulePaths(), FakeLoader())
+
+	def load(self, path: str) -> BaseException | None:
+		try:
+			self.modules.load(path)
+			return None
+		except BaseException as e:  # noqa: BLE001 - the escaping class is the observation
+			return e
+
+
+def _tok(e: BaseException | None) -> str:
+	return 'ok' if e is None else exc_spec(e)
+
+
+def load_cases(rng: random.Random, n_random: int) -> list[tuple[dict[str, Any], list[str], list[str]]]:
+	classes = exception_classes()
+	cases = []
+
+	def mk(cls: type, arg0: str = 'other') -> BaseException:
+		return make_exception(cls, arg0, None) or make_exception(cls, 'none', None) or KeyError('k')
+
+	def one(kind: str, libs: Any, load: Any, pre: Any, dep: Any, unload: Any, registered: bool = False) -> None:
+		"""libs / dep: exception raised by loader.load of the library / of an imported module; load / pre / unload: stages of `main`"""
+		rig = LoadRig(['lib'] if libs is not None else [])
+		if registered:
+			rig.load('main')
+		e_lib = None
+		if libs is not None:
+			rig.on_load['lib'] = libs
+			e_lib = rig.load('lib')  # what the nested `load('lib')` lets escape, observed on its own
+		rig.on_load['main'] = load
+		rig.on_preprocess['main'] = pre
+		rig.on_unload['main'] = unload
+		body: BaseException | None = pre
+		if dep is not None:
+			rig.imports['main'] = ['dep']
+			rig.on_load['dep'] = dep
+			body = rig.load('dep')  # the dependency fails first (it is loaded before preprocess), observed on its own
+		caught = rig.load('main')
+		op = '\t'.join(['modload', '1' if registered else '0', '0', _tok(e_lib), _tok(load), _tok(body), _tok(unload)])
+		cases.append(({'kind': kind}, [op], [outcome_of(caught)]))
+
+	for cls in classes:
+		one('load', None, mk(cls), None, None, None)
+		one('preprocess', None, None, mk(cls, 'none'), None, None)
+		one('dependency', None, None, None, mk(cls), None)
+		one('library', mk(cls), None, None, None, None)
+		one('rollback-fails', None, None, mk(KeyError), None, mk(cls))
+		one('registered', None, mk(cls), mk(cls), None, None, registered=True)
+	for _ in range(n_random):
+		pick = lambda p: mk(rng.choice(classes), rng.choice(['none', 'other'])) if rng.random() < p else None  # noqa: E731
+		one('random', pick(0.15), pick(0.3), pick(0.4), pick(0.3), pick(0.3), registered=rng.random() < 0.1)
+	# the libraries load the module themselves: nothing is loaded a second time
+	rig = LoadRig(['lib'])
+	rig.imports['lib'] = ['main']
+	first = rig.load('main')
+	n_loads = rig.calls.count('load:main')
+	cases.append(({'kind': 'registered-by-libraries'}, ['modload\t0\t1\tok\tother B KeyError\tok\tok'], [outcome_of(first) if n_loads == 1 else f'loader.load(main) called {n_loads} times']))
+	return cases
+
+
+def stream_load(ctx: Ctx) -> Stream:
+	cases = load_cases(ctx.sub_rng('load'), ctx.scale(200, 2000))
+	st = common.correspond('errors-load', cases, 'errors', classify=lambda d: d['kind'])
+	st.note = ('the real Modules.load over a scripted IModuleLoader: every exception class raised by loader.load, by a preprocessor, by an imported module, '
+		'by a library module, by the rollback unload; already registered modules; random stage combinations; escaped class vs model (generated modulesLoadHandlers)')
+	return st
+
+
+# ---------------------------------------------------------------------------------------------
 # stream errors-loop: the real Interactive.run with a scripted tty
 
 
@@ -958,6 +1087,34 @@ def load_corpus() -> list[dict[str, Any]]:
 	return out
 
 
+def make_syntax_oracle(pipe: pl.Pipeline) -> Any:
+	"""Extra oracle of the fuzz: "unparsable text is reported as Errors.Syntax whether the module lives on disk or only in memory".
+	lark itself (the grammar's parser, taken from the App of `pipe`) decides what is unparsable; undecodable bytes are unparsable too."""
+	from rogw.tranp.syntax.ast.parser import SyntaxParser
+	lark_parser = pipe.resolve(SyntaxParser).dirty_get_origin()
+
+	def unparsable(data: str | bytes) -> bool:
+		try:
+			text = data.decode('utf-8') if isinstance(data, bytes) else data
+		except UnicodeDecodeError:
+			return True
+		if text == '':
+			return False
+		try:
+			lark_parser.parse(text if text.endswith('\n') else f'{text}\n')
+			return False
+		except Exception:  # noqa: BLE001 - any failure of the grammar's own parser
+			return True
+
+	def syntax_oracle(mode: str, data: str | bytes, o: pl.Outcome) -> None:
+		if o.kind == 'error' and not o.cls.endswith('Errors.Syntax') and unparsable(data):
+			o.message = f'text rejected by the grammar came out as {o.cls}, not Errors.Syntax: {o.message}'[:300]
+			o.key = f"unparsable-not-syntax:{o.cls.split('.')[-1]}[{mode}]"
+			o.kind = 'escape'
+
+	return syntax_oracle
+
+
 def fuzz_inputs(ctx: Ctx) -> list[tuple[str, str, str | bytes]]:
 	"""(kind, mode, data) — deterministic per seed. The fixed part (corpus, witnesses, seeds, templates) is seed independent."""
 	rng = ctx.sub_rng('fuzz')
@@ -1019,6 +1176,9 @@ def search_fuzz(ctx: Ctx) -> SearchResult:
 	base = ctx.tmpdir()
 	pipes = {'in-memory': pl.Pipeline('in-memory', base), 'on-disk': pl.Pipeline('on-disk', base)}
 	inputs = fuzz_inputs(ctx)
+	syntax_oracle = make_syntax_oracle(pipes['in-memory'])
+	for p in pipes.values():
+		p.post = syntax_oracle
 	hist: Counter[str] = Counter()
 	first: dict[str, tuple[str, str, str | bytes, pl.Outcome]] = {}
 	seen: set[int] = set()
@@ -1053,9 +1213,9 @@ def search_fuzz(ctx: Ctx) -> SearchResult:
 		kind, mode, data, o = first[k]
 		# corpus witnesses are already minimal, deep-nesting inputs are what they are (and each run of them costs seconds)
 		small = data if kind in ('corpus', 'witness-F3', 'deep-nesting') else minimise(pipes[mode], data, k)
-		conf = pl.fresh_outcome(mode, base, small)
+		conf = pl.fresh_outcome(mode, base, small, post=syntax_oracle)
 		if k not in conf.keys():
-			conf = pl.fresh_outcome(mode, base, data)
+			conf = pl.fresh_outcome(mode, base, data, post=syntax_oracle)
 			small = data
 		if k not in conf.keys():
 			ctx.notes.append(f'escape {k} seen during the run did not reproduce on a fresh App (history dependent); input kept in the evidence notes only: {_as_text(data)[:200]!r}')
@@ -1163,6 +1323,15 @@ def search_laws(ctx: Ctx) -> SearchResult:
 				key = pl.escape_key(caught, mode) if not isinstance(caught, Errors.Error) else f'parse-{branch}:{display(type(caught))}'
 				res.findings.append(Finding(key=key, what=f'{mode} branch: unparsable text ({kind}) {src!r} came out as {outcome_of(caught)}, not Errors.Syntax',
 					replay={'mode': mode, 'source': src, 'class': pl.class_name(caught), 'tranp_frames': pl.tranp_frames(caught)}))
+	# -- Modules.load: whatever Exception a loader stage raises, load ends ok / in the hierarchy (non-Exceptions pass through)
+	for d, ops, real in load_cases(rng, ctx.scale(60, 600)):
+		res.cases += 1
+		out = real[0]
+		hist[f"load/{d['kind']}/{out.split(' ')[0]}" + ('/E' if ' E ' in out else '')] += 1
+		raised = [t for t in ops[0].split('\t')[3:] if t != 'ok']
+		passthrough = any(t.split(' ', 1)[1].startswith(('B BaseException', 'B KeyboardInterrupt', 'B SystemExit', 'B GeneratorExit', f"U {hx('MyBase')}", f"U {hx('MyInterrupt')}")) for t in raised)
+		if not (out == 'ok' or ' E ' in out or passthrough):
+			res.findings.append(Finding(key=f"load:{out.split(' ')[1]}@{d['kind']}", what=f'Modules.load let {out} escape ({d["kind"]} stage)', replay={'op': ops[0], 'real': out}))
 	# -- Interactive
 	loop = LoopRig(ctx)
 	for cls in exception_classes():
@@ -1191,6 +1360,8 @@ STATEMENTS = {
 	'parse_disk': 'the on-disk branch of __load_entry turns every Exception into Errors.Syntax (nothing is parsed on a cache hit)',
 	'parse_mem_counterexample': 'NEGATIVE (pinned tree): with no except clause around the in-memory branch the raw parser exception escapes (witness: lark UnexpectedToken)',
 	'parse_mem_fixed': 'with the on-disk except clauses around the in-memory branch (proposed fix) every Exception becomes Errors.Syntax',
+	'load_normalised': 'Modules.load with the clauses `except Errors.Error: raise` / `except Exception: raise Errors.Fatal` ends ok, in the Errors.Error hierarchy, or with a non-Exception — whatever libraries, loader, dependencies, preprocessors and the rollback raise',
+	'load_unnormalised_counterexample': 'NEGATIVE (pinned tree, no clauses): an IndexError of a preprocessor leaves Modules.load raw',
 	'loop': 'an Interactive step returns to the prompt for every outcome in {ok} ∪ Errors.Error (any subclass) when printing the error succeeds',
 	'loop_history': 'every history of such steps is consumed completely and the loop is still running',
 	'loop_dies': 'any other Exception ends Interactive.run (what the raw parser exception does on the pinned tree)',
@@ -1215,7 +1386,7 @@ def run(ctx: Ctx) -> int:
 	streams: list[Stream] = []
 	if proof.built:
 		with ctx.timed('correspondence'):
-			streams = [stream_hierarchy(ctx), stream_proc(ctx), stream_parse(ctx), stream_loop(ctx), stream_render(ctx)]
+			streams = [stream_hierarchy(ctx), stream_proc(ctx), stream_parse(ctx), stream_load(ctx), stream_loop(ctx), stream_render(ctx)]
 	with ctx.timed('search'):
 		searches = [search_f3_replay(ctx), search_laws(ctx), search_fuzz(ctx)]
 	wrapped = bool(ctx.generated_tables and ctx.generated_tables[0].get('mem_branch_wrapped'))
@@ -1244,7 +1415,9 @@ def replay(ctx: Ctx, path: str) -> int:
 	if rec.get('kind') == 'failing-input':
 		inp = rec['input']
 		data: str | bytes = bytes.fromhex(inp['source_hex']) if inp.get('source_hex') else inp['source']
-		o = pl.fresh_outcome(inp['mode'], ctx.tmpdir(), data)
+		helper = pl.Pipeline('in-memory', ctx.tmpdir())
+		o = pl.fresh_outcome(inp['mode'], ctx.tmpdir(), data, post=make_syntax_oracle(helper))
+		helper.close()
 		print(f"replay: mode={inp['mode']} outcome={o.kind} class={o.cls} keys={o.keys()} render={o.render}")
 		print(f'source: {_as_text(data)!r}')
 		known = {k['key'] for k in common.load_known(PROP) if k.get('status') == 'known'}
